@@ -94,6 +94,8 @@ def node_cases(sc, obs):
             lst.append("OpS %s" % Z(obs_hash(CODE_R, o)))
         elif op[0] == "G":
             lst.append("OpG [%s] %s" % (";".join(Z(x) for x in op[2]), Z(obs_hash(CODE_G, o))))
+        elif op[0] == "F":
+            lst.append("OpF %s %s %s" % (Z(op[2]), Z(obs_hash(CODE_R, o)), Z(o["need_reorg"])))
     out = []
     for nd in sorted(per):
         selfs = sc.get("self") or []
@@ -110,10 +112,12 @@ def direct_predicates(sc, obs, stats):
     blocks = {0: {"id": 0, "parent": None, "no": 0, "bp": -1, "conf": 0}}
     prev = {}       # node -> last online observation
     j = 0
-    need = 2 * n // 3 + 1
+    need = 0 if sc.get("election") else 2 * n // 3 + 1
     for k, op in enumerate(sc["ops"]):
+        if op[0] == "T":
+            continue
         if op[0] == "B":
-            _, i, parent, bp, conf = op
+            _, i, parent, bp, conf = op[:5]
             blocks[i] = {"id": i, "parent": parent, "no": blocks[parent]["no"] + 1, "bp": bp, "conf": conf}
             continue
         o = obs[j]
@@ -123,6 +127,18 @@ def direct_predicates(sc, obs, stats):
         p = prev.get(nd)
         if op[0] == "G":
             prev[nd] = o
+            continue
+        if op[0] == "F":
+            rh = op[2]
+            stats["force_resets"] = stats.get("force_resets", 0) + 1
+            if rh > 0:
+                if st["lib_no"] > rh:
+                    fails.append(("C08:force-reset-lib-above-height", "LIB %d above ForceResetHeight %d after the reset" % (st["lib_no"], rh),
+                                  {"op_index": k}))
+                for e in st["prpsd"] or []:
+                    if e["plib_no"] > rh or e["by_no"] > rh:
+                        fails.append(("C08:force-reset-proposal-above-height",
+                                      "proposal (%d by %d) above ForceResetHeight %d kept" % (e["plib_no"], e["by_no"], rh), {"op_index": k}))
             continue
         if op[0] in ("S", "R"):
             stats["restarts"] += 1
@@ -333,6 +349,38 @@ def model_eval(ctx, name, cases):
     return bad, ""
 
 
+def election_eval(ctx, cases):
+    """Returns ({case index: first differing op}, error text) for Dpos/Election.v cases."""
+    import re
+    bad = {}
+    for s, case in enumerate(cases):
+        txt = ["From Coq Require Import ZArith List Bool.", "From Verif Require Import Dpos.Lib Dpos.Election.",
+               "Import ListNotations.", "Open Scope Z_scope.", "Definition c : ecase := %s." % case,
+               "Definition D := Eval vm_compute in escenario_first_diff c.", "Print D."]
+        rc, out = ctx.coq_eval("c08_election_%d" % s, "\n".join(txt))
+        flat = " ".join(out.split())
+        m = re.search(r"D = (\(?-?\d+\)?)", flat)
+        if rc != 0 or not m:
+            return None, out
+        v = int(m.group(1).replace("(", "").replace(")", ""))
+        if v >= 0:
+            bad[s] = v
+    return bad, ""
+
+
+def election_obs_at(ctx, case, i):
+    import re
+    txt = ["From Coq Require Import ZArith List Bool.", "From Verif Require Import Dpos.Lib Dpos.Election.",
+           "Import ListNotations.", "Open Scope Z_scope.", "Definition c : ecase := %s." % case,
+           "Definition O := Eval vm_compute in escenario_debug c %d%%nat." % i, "Print O."]
+    rc, out = ctx.coq_eval("c08_election_debug", "\n".join(txt))
+    flat = " ".join(out.split())
+    m = re.search(r"O = \[([^\]]*)\]", flat)
+    if rc != 0 or not m:
+        return None
+    return [int(x.replace("(", "").replace(")", "")) for x in m.group(1).split(";") if x.strip()]
+
+
 def model_obs_at(ctx, case, i):
     """The model's flattened observation at op i of one case (for the replay)."""
     import re
@@ -370,6 +418,94 @@ def chain_case(sc, obs):
     return "((20000,(-1)),[%s])" % ";\n".join(terms)
 
 
+def election_flat(code, o):
+    return flat_obs(code, o) + [o["size"]] + list(o["cluster"] or [])
+
+
+def election_case(sc, obs):
+    """Coq ecase (gen, self, states, block->state, ops) for Dpos/Election.v."""
+    states = ["(0,([],%s))" % Z(sc["n"])]
+    bs, terms = [], []
+    blocks = {0: (0, -1, 0, -1, 0)}
+    j = 0
+    for op in sc["ops"]:
+        if op[0] == "T":
+            states.append("(%s,([%s],%s))" % (Z(op[1]), ";".join(Z(x) for x in op[2]), Z(op[3])))
+        elif op[0] == "B":
+            _, i, parent, bp, conf, sid = op
+            blocks[i] = (i, parent, blocks[parent][2] + 1, bp, conf)
+            bs.append("(%s,%s)" % (Z(i), Z(sid)))
+        else:
+            o = obs[j]
+            j += 1
+            if op[0] == "D":
+                b = blocks[op[2]]
+                h = 5381
+                for x in election_flat(RES[o["res"]], o):
+                    h = ((h << 5) + h + x + 7) & HASH_MASK
+                terms.append("EOpD (mkBlk %s %s %s %s %s) %s" % (Z(b[0]), Z(b[1]), Z(b[2]), Z(b[3]), Z(b[4]), Z(h)))
+            else:
+                h = 5381
+                for x in election_flat(CODE_R, o):
+                    h = ((h << 5) + h + x + 7) & HASH_MASK
+                terms.append("%s %s" % ("EOpR" if op[0] == "R" else "EOpS", Z(h)))
+    me = sc["self"][0] if sc.get("self") and sc["self"][0] >= 0 else -1
+    return "([%s],%s,[%s],[%s],[%s])" % (";".join(Z(x) for x in range(sc["n"])), Z(me), ";".join(states),
+                                         ";".join(bs), ";\n".join(terms))
+
+
+def election_predicates(sc, obs, stats):
+    """Direct predicates on the implementation for the election scenarios."""
+    fails = []
+    n = sc["n"]
+    gen = list(range(n))
+    states = {0: ([], n)}
+    blocks = {0: {"parent": None, "no": 0, "sid": 0}}
+    prev = None
+    j = 0
+    for k, op in enumerate(sc["ops"]):
+        if op[0] == "T":
+            states[op[1]] = (op[2], op[3])
+            continue
+        if op[0] == "B":
+            blocks[op[1]] = {"parent": op[2], "no": blocks[op[2]]["no"] + 1, "sid": op[5]}
+            continue
+        o = obs[j]
+        j += 1
+        st = o["state"]
+        main = o["main"]
+        bestno = len(main) - 1
+        r = 0 if bestno < 300 else (bestno // 100 - 1) * 100
+        if r == 0:
+            spec = gen
+        else:
+            rk, c = states[blocks[main[r]]["sid"]]
+            spec = rk[:c]
+        stats["election_steps"] = stats.get("election_steps", 0) + 1
+        if o["res"] in ("connected", "reorg", "restored"):
+            if o["cluster"] != spec:
+                fails.append(("C08:producer-set-not-function-of-chain",
+                              "producer set %s after block %d is not the ranking %s committed at reference height %d"
+                              % (o["cluster"], bestno, spec, r), {"op_index": k}))
+            if st["cr"] != (2 * o["size"]) // 3 + 1:
+                fails.append(("C08:confirms-required-not-current",
+                              "confirmsRequired %d with %d current producers" % (st["cr"], o["size"]), {"op_index": k}))
+        if op[0] in ("S", "R") and prev is not None and o["cluster"] != prev["cluster"]:
+            fails.append(("C08:producer-set-differs-after-restart",
+                          "producer set after restart %s differs from the one computed online %s for the same chain"
+                          % (o["cluster"], prev["cluster"]), {"op_index": k}))
+        if o["res"] == "connected" and bestno % 100 == 0 and bestno > 0:
+            stats["election_boundaries"] = stats.get("election_boundaries", 0) + 1
+            extra = [e["bp"] for e in st["prpsd"] or [] if e["bp"] not in o["cluster"]]
+            if extra:
+                fails.append(("C08:retired-producer-proposal-kept",
+                              "proposals of producers %s outside the producer set %s kept after the boundary %d"
+                              % (extra, o["cluster"], bestno), {"op_index": k}))
+        if op[0] in ("D", "R"):
+            prev = o
+    return fails
+
+
 def load_corpus():
     d = os.path.join(vf.VERIF, "corpus", "C08")
     out = []
@@ -400,14 +536,16 @@ def run(ctx):
         "block numbers < 2^63, producer count < 21845 (no uint16 overflow in confirmsRequired*3)",
         "the chain service calls Status in the order read from chain/chainhandle.go and chain/reorg.go at the pinned commit"]
     rc, log, binpath = ctx.go_test_binary(
-        "consensus/impl/dpos", [os.path.join(vf.HARNESS, "engines/dposlib/zz_verif_c08_engine_test.go")], "dpos_c08.test")
+        "consensus/impl/dpos", [os.path.join(vf.HARNESS, "engines/dposlib/zz_verif_c08_engine_test.go"),
+                                os.path.join(vf.HARNESS, "engines/dposlib/zz_verif_c08_election_engine_test.go")], "dpos_c08.test")
     if rc != 0:
         raise RuntimeError("C08 engine build failed:\n" + log[-3000:])
 
     T['build'] = round(time.time() - t0, 1)
     t0 = time.time()
     rng = ctx.rng
-    corpus = load_corpus()
+    corpus_all = load_corpus()
+    corpus = [c for c in corpus_all if not c.get("election")]
     scen = list(corpus)
     scen += G.generate(rng, quick)
     if getattr(ctx, "replay", None):
@@ -480,6 +618,15 @@ def run(ctx):
                 prev_main = m
     pred_fail += chain_pred
     stats["chain_service_deliveries"] = sum(len(o) for o in cobs)
+    # ---- election scenarios: real bp.Cluster / bp.Snapshots / system.GetRankers under the real NewStatus
+    escen = [c for c in corpus_all if c.get("election")] + G.generate_election(rng, quick)
+    eobs = run_engine(ctx, binpath, escen, "c08election", test="TestVerifC08ElectionEngine")
+    ecases = []
+    for sc, ob in zip(escen, eobs):
+        for key, what, detail in direct_predicates(sc, ob, stats) + election_predicates(sc, ob, stats):
+            pred_fail.append((key, what, {"scenario_name": sc.get("name", "generated"), "scenario": sc, "detail": detail}))
+        ecases.append(election_case(sc, ob))
+    ebad, eout = election_eval(ctx, ecases)
     bad, out = model_eval(ctx, "c08_cases", cases)
     T['model_eval'] = round(time.time() - t0, 1)
     ctx.cov['timing_s'] = T
@@ -504,7 +651,19 @@ def run(ctx):
                                       "|confirms|, (id, no, bp, range, left)*, |main|, ids*"})
         corr_broken = ("model/implementation differ on %d of %d node histories" % (len(bad), len(cases)), det)
 
-    nobs = sum(len(o) for o in obs) + sum(len(o) for o in cobs)
+    if ebad is None:
+        corr_broken = corr_broken or ("C08 election correspondence could not be evaluated", eout[-2000:])
+    elif ebad and not corr_broken:
+        ci = sorted(ebad)[0]
+        steps = [(k, op) for k, op in enumerate(escen[ci]["ops"]) if op[0] in ("D", "S", "R")]
+        k, op = steps[ebad[ci]]
+        o = eobs[ci][ebad[ci]]
+        corr_broken = ("election model/implementation differ on %d of %d histories" % (len(ebad), len(ecases)),
+                       [{"scenario": escen[ci], "op_index": k, "op": op,
+                         "implementation_obs": election_flat(RES.get(o["res"], CODE_R), o),
+                         "model_obs": election_obs_at(ctx, ecases[ci], ebad[ci]),
+                         "obs_layout": "as for the dpos engine, then producer-set size and members"}])
+    nobs = sum(len(o) for o in obs) + sum(len(o) for o in cobs) + sum(len(o) for o in eobs)
     ctx.cov["evaluations"] = nobs
     ctx.cov["traces_validated_against_impl"] = len(cases)
     ctx.cov["distinct_nontrivial"] = len(shapes)
